@@ -135,8 +135,9 @@ func Changes(cmd CommandRunner, baseBranch string, filter PathFilter) ([]*FileCh
 			)
 			change.Commits = append(change.Commits, prev.Commits...)
 			change.Path.Before = prev.Path.Before
-			// Remove any changes for "BEFORE" path we might already have
-			changes = changesWithout(changes, srcPath)
+			// Remove the change we continue from; older records for the same path (a deletion
+			// that a later rename landed on) describe another file and must stay.
+			changes = changesWithout(changes, prev)
 		} else {
 			slog.Debug("No previous change found")
 			switch change.Status {
@@ -257,16 +258,17 @@ func unquotePath(s string) string {
 	return s
 }
 
-func changesWithout(changes []*FileChange, fpath string) []*FileChange {
+func changesWithout(changes []*FileChange, prev *FileChange) []*FileChange {
 	return slices.DeleteFunc(changes, func(e *FileChange) bool {
-		return e.Path.After.Name == fpath
+		return e == prev
 	})
 }
 
+// the most recent change for a path is the one that describes the file currently at that path
 func getChangeByPath(changes []*FileChange, fpath string) *FileChange {
-	for _, c := range changes {
-		if c.Path.After.Name == fpath {
-			return c
+	for i := len(changes) - 1; i >= 0; i-- {
+		if changes[i].Path.After.Name == fpath {
+			return changes[i]
 		}
 	}
 	return nil
